@@ -38,7 +38,7 @@ fn tdepth(s: &TState) -> Option<usize> { s.layer.map(|l| l as usize) }
 
 #[derive(Default)]
 struct DdStats { relaxed: u64, relaxed_exact: u64, relaxed_inexact: u64, restricted: u64, restricted_inexact: u64, exact: u64, aborted: u64, cutset_nodes: u64, completions_checked: u64,
-    frontier_multi_layer: u64, infeasible_root: u64, lb_above: u64, reuse_after_abort: u64, exact_best_path_with_merges: u64 }
+    frontier_multi_layer: u64, infeasible_root: u64, lb_above: u64, reuse_after_abort: u64, exact_best_path_with_merges: u64, recycled: u64, merges: u64 }
 
 /// executes a history on ONE diagram object and judges every completed compilation
 fn exec_dd_history<D: DecisionDiagram<State = TState> + Default>(inst: &Inst, ops: &[CompileOp], st: &mut DdStats, polls_out: &mut Vec<usize>) -> Vec<Violation> {
@@ -64,7 +64,7 @@ fn exec_dd_history<D: DecisionDiagram<State = TState> + Default>(inst: &Inst, op
         let res = std::panic::catch_unwind(std::panic::AssertUnwindSafe(|| dd.compile(&input)));
         monitor::on_compile_end();
         polls_out.push(cutoff.polls());
-        let ctx = format!("op #{i} {ct:?} root=(layer {}, base {}, value {}) width={} best_lb={} [{}]", op.layer, op.base, op.value, op.width, op.lb, if prev_aborted { "object re-used after an aborted compilation" } else { "object re-used after a completed compilation" });
+        let ctx = format!("op #{i} {ct:?} root=(layer {}, base {}, value {}) width={} best_lb={} [{}]", op.layer, op.base, op.value, op.width, op.lb, if i == 0 { "fresh object" } else if prev_aborted { "object re-used after an aborted compilation" } else { "object re-used after a completed compilation" });
         let res = match res {
             Err(e) => { let m = e.downcast_ref::<String>().cloned().or_else(|| e.downcast_ref::<&str>().map(|s| s.to_string())).unwrap_or_default();
                         out.push(v(&[match op.ctype { 1 => "C06", _ => "C07" }], "compile-panic", format!("compile panicked: {m}; {ctx}"))); dd = D::default(); prev_aborted = false; continue; }
@@ -171,6 +171,8 @@ fn exec_dd_history<D: DecisionDiagram<State = TState> + Default>(inst: &Inst, op
             }
         }
     }
+    st.recycled += monitor::RECYCLED_MERGES.load(std::sync::atomic::Ordering::Relaxed) as u64;
+    st.merges += monitor::MERGE_CALLS.load(std::sync::atomic::Ordering::Relaxed) as u64;
     for (p, m) in rc.violations.lock().unwrap().iter() { out.push(v(&[p.as_str()], if p == "C12" { "callback-protocol" } else { "width-exceeded" }, m.clone())); }
     out
 }
@@ -207,7 +209,7 @@ fn record_dd(agg: &mut Agg, st: &DdStats) {
     agg.add("fault:compile_aborted_by_cutoff", st.aborted); agg.add("fault:reuse_after_abort", st.reuse_after_abort); agg.add("cutset_nodes_checked", st.cutset_nodes);
     agg.add("completions_checked_for_coverage", st.completions_checked); agg.add("probe:frontier_cutset_spanning_>=2_layers", st.frontier_multi_layer);
     agg.add("probe:infeasible_subproblem", st.infeasible_root); agg.add("probe:incumbent_at_or_above_optimum", st.lb_above); agg.add("probe:exact_best_path_claim_with_merges_present", st.exact_best_path_with_merges);
-    for (k, c) in [("mon_merge_calls", &monitor::MERGE_CALLS), ("mon_relax_calls", &monitor::RELAX_CALLS)] { let _ = (k, c); }
+    agg.add("probe:merged_state_equal_to_a_kept_node(recycled)", st.recycled); agg.add("mon_merge_calls", st.merges);
 }
 
 fn run_dd_history(arm: &str, seed: u64, run: u64, agg: &mut Agg, explicit: Option<(&Table, Dd, &[CompileOp])>) -> Option<ViolationRecord> {
@@ -216,12 +218,17 @@ fn run_dd_history(arm: &str, seed: u64, run: u64, agg: &mut Agg, explicit: Optio
         Some((t, d, o)) => (t.clone(), d, o.to_vec()),
         None => {
             let long_arcs = arm == "dd-history-longarc";
+            let narrow = arm == "dd-history-narrow";
             let mut trng = rng.fork(1);
-            let mut t = Table::generate(&mut trng, GenOpts { depth_free: arm == "dd-history-depthfree", long_arcs, max_n: 6, max_s: 6, reconverge: false, dom_friendly: false });
+            let mut t = Table::generate(&mut trng, GenOpts { depth_free: arm == "dd-history-depthfree", long_arcs, max_n: 6, max_s: 6, reconverge: false, dom_friendly: false, few_dead_arcs: narrow });
             if arm == "dd-history" && rng.chance(1, 3) { t.rub = Rub::None; }
             let dd = *rng.pick(&[Dd::Lel, Dd::Fc, Dd::Pooled]);
             let inst = Inst::new(t.clone());
-            let ops = gen_dd_history(&mut rng, &inst);
+            let mut ops = gen_dd_history(&mut rng, &inst);
+            if narrow {
+                // many merges: relaxed compilations from shallow roots with widths 2..3 (so that set-states and their members meet in one layer)
+                for op in ops.iter_mut() { if rng.chance(3, 4) { op.ctype = 1; } op.width = 2 + rng.below(2); if rng.chance(2, 3) { op.layer = 0; op.base = 0; op.value = inst.t.v0; op.path = vec![]; if rng.chance(1, 2) { op.lb = isize::MIN; } } }
+            }
             (t, dd, ops)
         }
     };
@@ -468,7 +475,7 @@ fn run_width_grid(seed: u64, run: u64, agg: &mut Agg) -> Option<ViolationRecord>
 // =====================================================================================================
 pub fn run_history_arm(arm: &str, seed: u64, run: u64, agg: &mut Agg) -> Option<Option<ViolationRecord>> {
     Some(match arm {
-        "dd-history" | "dd-history-depthfree" | "dd-history-longarc" => run_dd_history(arm, seed, run, agg, None),
+        "dd-history" | "dd-history-depthfree" | "dd-history-longarc" | "dd-history-narrow" => run_dd_history(arm, seed, run, agg, None),
         "fringe-history" => run_fringe_history(arm, seed, run, agg, None),
         "store-history" => run_store_history(arm, seed, run, agg, None),
         "dom-history" => run_dom_history(arm, seed, run, agg, None),
